@@ -393,6 +393,7 @@ def _join_routes():
 _join_routes()
 
 NAMES = sorted(ROUTES)
+CTOR_NAMES = sorted(CTOR_TEMPLATES)
 
 # ---- the same entry points fed with an instance of a str subclass ---------------------------------------------------
 # (multidict.istr, str-mixin enums, markupsafe strings ... are all "str" for the documented argument types)
